@@ -575,6 +575,13 @@ def check_c05(prog, rep, tier, cfg):
     c05h(prog, rep)
     c05i(prog, rep)
     c05j(prog, rep)
+    # C05.k — "indented exactly one level deeper": what is written for a line start is `indentations` copies of the indentation string and
+    # `continuations` copies of the continuation string, whatever the depth (shared with C08.a counter <-> string pairing and C10.c: the
+    # width strings reach the output only through push / repeat, not through a cache that can be too short)
+    import layout as _layout
+    from engine import AliasReport as _AR
+    _layout.check_c08(prog, _AR(rep, [("C08.a", r".", "C05.k")]), tier, cfg)
+    _layout.check_c10(prog, _AR(rep, [("C10.c", r".", "C05.k")]), tier, cfg)
 
 
 PROPERTIES = {
